@@ -293,7 +293,8 @@ func ParseRealtime(content []byte, opts *ParseRealtimeOptions) (*Realtime, error
 	vehiclesByID := map[VehicleID]*Vehicle{}
 	tripIDToVehicleID := map[TripID]VehicleID{}
 	vehicleIDToTripID := map[VehicleID]TripID{}
-	vehiclesWithNoID := []Vehicle{}
+	vehiclesWithNoID := []*Vehicle{}
+	tripIDToVehicleWithNoID := map[TripID]*Vehicle{}
 	for i, entity := range feedMessage.Entity {
 		if shouldSkip[i] {
 			continue
@@ -342,7 +343,7 @@ func ParseRealtime(content []byte, opts *ParseRealtimeOptions) (*Realtime, error
 				}
 				mergeVehicle(vehiclesByID[*vehicle.ID], *vehicle)
 			} else {
-				vehiclesWithNoID = append(vehiclesWithNoID, *vehicle)
+				vehiclesWithNoID = append(vehiclesWithNoID, vehicle)
 			}
 		}
 		if trip != nil && vehicle != nil {
@@ -352,7 +353,8 @@ func ParseRealtime(content []byte, opts *ParseRealtimeOptions) (*Realtime, error
 				tripIDToVehicleID[trip.ID] = *vehicle.ID
 				vehicleIDToTripID[*vehicle.ID] = trip.ID
 			} else {
-				trip.Vehicle = vehicle
+				tripIDToVehicleWithNoID[trip.ID] = vehicle
+				vehicle.Trip = tripsById[trip.ID]
 			}
 		}
 	}
@@ -360,6 +362,8 @@ func ParseRealtime(content []byte, opts *ParseRealtimeOptions) (*Realtime, error
 	for tripID, trip := range tripsById {
 		if vehicleID, ok := tripIDToVehicleID[tripID]; ok {
 			trip.Vehicle = vehiclesByID[vehicleID]
+		} else if vehicle, ok := tripIDToVehicleWithNoID[tripID]; ok {
+			trip.Vehicle = vehicle
 		}
 		result.Trips = append(result.Trips, *trip)
 	}
@@ -384,7 +388,9 @@ func ParseRealtime(content []byte, opts *ParseRealtimeOptions) (*Realtime, error
 		}
 		return a.LicensePlate < b.LicensePlate
 	})
-	result.Vehicles = append(result.Vehicles, vehiclesWithNoID...)
+	for _, vehicle := range vehiclesWithNoID {
+		result.Vehicles = append(result.Vehicles, *vehicle)
+	}
 	return &result, nil
 }
 
